@@ -156,7 +156,8 @@ Definition bmp_get_connection (c : ctl) (cab fr bd : value) : option Z :=
 
 (* ------------------------------------------------------------------ commands on the wire *)
 (* How an argument word of the command carries a value: FByte = an 8 bit field at [shift];
-   FBit = the word is 1 << value (board masks of the BMP). *)
+   FBit = the word is the bit mask of the value: 1 << b for an integer b, the sum of 1 << b over a collection
+   (board masks of the BMP). *)
 Inductive fkind : Type := FByte | FBit.
 
 Record wire : Type := MkWire {
@@ -177,7 +178,8 @@ Inductive expr : Type :=
 | EConst (v : value)         (* literal in the source *)
 | EOpq (t : Z)               (* a value computed from non-contextual data (address, struct name, ...) *)
 | EKeyX (e : expr)           (* x / y of the first key of a {(x, y): ...} dictionary; the object VTok t *)
-| EKeyY (e : expr).          (*   stands for a dictionary whose first key is (t mod 8, (t / 8) mod 8)   *)
+| EKeyY (e : expr)           (*   stands for a dictionary whose first key is (t mod 8, (t / 8) mod 8)   *)
+| EFirst (e : expr).         (* e if it is an integer, else list(e)[0]: the first board named *)
 
 Inductive body : Type :=
 | BSend (x y p cmd : expr) (disc : list (nat * Z * Z * Z)) (fields : list (fkind * nat * Z * expr))
@@ -201,6 +203,13 @@ Definition key_x (v : value) : option value :=
 Definition key_y (v : value) : option value :=
   match v with VTok t => Some (VInt ((t / 8) mod 8)) | _ => None end.
 
+Definition first_of (v : value) : option value :=
+  match v with
+  | VSeq (b :: _) => Some (VInt b)
+  | VSeq [] => None                       (* IndexError *)
+  | _ => Some v
+  end.
+
 Fixpoint eval (e : env) (x : expr) : option value :=
   match x with
   | EParam n => sassoc n (e_args e)
@@ -209,6 +218,7 @@ Fixpoint eval (e : env) (x : expr) : option value :=
   | EOpq t => Some (VTok t)
   | EKeyX a => match eval e a with Some v => key_x v | None => None end
   | EKeyY a => match eval e a with Some v => key_y v | None => None end
+  | EFirst a => match eval e a with Some v => first_of v | None => None end
   end.
 
 Fixpoint eval_list (e : env) (l : list expr) : option (list value) :=
@@ -229,7 +239,14 @@ Fixpoint eval_kw (e : env) (l : list (string * expr)) : option (list (string * v
                    end
   end.
 
-(* the words carrying values are computed with << and | : a value that is not an integer is a TypeError *)
+(* the words carrying values are computed with << and | : a value that is not an integer is a TypeError;
+   a bit mask is also computed from a collection of integers *)
+Definition field_value_ok (k : fkind) (v : value) : bool :=
+  match as_int v with
+  | Some _ => true
+  | None => match k, v with FBit, VSeq _ => true | _, _ => false end
+  end.
+
 Fixpoint eval_fields (e : env) (l : list (fkind * nat * Z * expr))
   : option (option (list (fkind * nat * Z * value))) :=       (* None = KeyError; Some None = TypeError *)
   match l with
@@ -241,10 +258,7 @@ Fixpoint eval_fields (e : env) (l : list (fkind * nat * Z * expr))
           match eval_fields e r with
           | None => None
           | Some None => Some None
-          | Some (Some fs) => match as_int v with
-                              | Some _ => Some (Some ((k, i, sh, v) :: fs))
-                              | None => Some None
-                              end
+          | Some (Some fs) => if field_value_ok k v then Some (Some ((k, i, sh, v) :: fs)) else Some None
           end
       end
   end.
@@ -281,7 +295,10 @@ Definition eval_cmd (e : env) (cmd : expr) : option (option value) :=
 
 (* Python truthiness of a value used as a condition *)
 Definition truthy (v : value) : bool :=
-  match v with VInt z => negb (z =? 0) | VNone => false | VBool b => b | VTok _ => true end.
+  match v with
+  | VInt z => negb (z =? 0) | VNone => false | VBool b => b | VTok _ => true
+  | VSeq l => match l with [] => false | _ => true end
+  end.
 
 (* An opaque object used as the `state` argument of count_cores_in_state: token t stands for a single
    state name when t mod 4 is 0 or 3, for a sequence of 2 states when it is 1, of 3 states when it is 2.
@@ -491,7 +508,8 @@ Definition bmp_bodies : list (string * body) :=
     ("get_software_version", bmp_send (P "board") SCP_sver []);
     (* the power command always goes to board 0; the boards concerned are a bit mask in arg2 *)
     ("set_power", bmp_send (K 0) SCP_power [(FBit, 1%nat, 0, P "board")]);
-    ("set_led", bmp_send (P "board") SCP_led [(FBit, 1%nat, 0, P "board")]);
+    (* several boards: the command goes to the first one named, the mask names them all *)
+    ("set_led", bmp_send (EFirst (P "board")) SCP_led [(FBit, 1%nat, 0, P "board")]);
     ("read_fpga_reg", bmp_send (P "board") SCP_link_read []);
     ("write_fpga_reg", bmp_send (P "board") SCP_link_write []);
     ("read_adc", bmp_send (P "board") SCP_bmp_info []) ].
@@ -636,8 +654,11 @@ Definition run_ops (c : ctl) (cls : string) : list op -> stack -> res := run_lis
 
 (* ------------------------------------------------------------------ printing for the harness
    (numbers, strings, tuples and lists only, which harness/lib.py can parse) *)
-Definition flat_value (v : value) : Z * Z :=
-  match v with VInt z => (0, z) | VNone => (1, 0) | VBool b => (2, if b then 1 else 0) | VTok t => (3, t) end.
+Definition flat_value (v : value) : Z * Z * list Z :=
+  match v with
+  | VInt z => (0, z, []) | VNone => (1, 0, []) | VBool b => (2, if b then 1 else 0, []) | VTok t => (3, t, [])
+  | VSeq l => (4, 0, l)
+  end.
 Definition flat_err (e : option err) : Z :=
   match e with
   | None => 0 | Some TypeErr => 1 | Some ValueErr => 2 | Some AssertErr => 3 | Some OtherErr => 4
